@@ -193,7 +193,7 @@ def rand_array(seed, shape, dtype):
         a = g.integers(0, 2, size=shape)
     elif dt.kind in "iu":
         info = np.iinfo(dt)
-        a = g.integers(info.min, info.max, size=shape, dtype=dt, endpoint=True)
+        a = g.integers(info.min, info.max, size=shape, dtype=dt.newbyteorder("="), endpoint=True)
     elif dt.kind == "c":
         a = g.standard_normal(shape) * 1000 + 1j * g.standard_normal(shape)
     else:
@@ -751,6 +751,12 @@ def read_case(u, case, path, fa, key, data, dtype_arg):
     if acc == "file":
         with open(path, "rb") as f:
             return u.read_signal(f, force_as=fa, **kw)
+    if acc == "offset":      # the record is not at the start of the (seekable) stream: the stream is positioned at its first byte
+        return u.read_signal(common.offset_stream(data), force_as=fa, **kw)
+    if acc == "second":      # two records written one after the other; the first has been read, now the second
+        f = io.BytesIO(bytes(case["_first"]) + data)
+        f.seek(len(case["_first"]))
+        return u.read_signal(f, force_as=fa, **kw)
     return u.read_signal(io.BytesIO(data), force_as=fa, **kw)
 
 
@@ -951,6 +957,7 @@ def roundtrip_phase(ctx, driver, root):
     cases += CORPUS_RT
     while len(cases) < n:
         cases.append(gen_roundtrip(r))
+    special_roundtrips(ctx, u, root)
     for i, case in enumerate(cases):
         if ctx.out_of_time():
             ctx.note("roundtrip: stopped after %d cases (time)" % i)
@@ -963,6 +970,38 @@ def roundtrip_phase(ctx, driver, root):
     ctx.count("correspondence_lines", len(lines))
     for (case, c, res, exp), o in zip(expect, outs):
         compare_dispatch(ctx, case, c, res, exp, o)
+
+
+def special_roundtrips(ctx, u, root):
+    """oracle-only cases outside the generated tables: arrays stored / requested in the NON-NATIVE byte order (a dtype is a
+    type AND a byte order: '>f8' is not 'float64'), and records that do not sit at offset 0 of the stream they are read from"""
+    k = 0
+    for c in ("npy", "npz"):
+        for stored, asked in ((">f8", "float64"), ("<f8", ">f8"), (">i2", "int16"), ("int16", ">i2"), (">f4", None), (">i4", "<i4"),
+                              ("float32", ">f4"), (">c8", "complex64")):
+            for acc in ("path", "bytesio", "file"):
+                k += 1
+                case = dict(kind="roundtrip", container=c, seed=900 + k, shape=[7] if k % 2 else [3, 2], dtype=stored, access=acc,
+                            byte_order_case=True)
+                if asked:
+                    case["dtype_arg"] = asked
+                if c == "npz":
+                    case.update(layout="named", compressed=bool(k % 2), key="b" if k % 3 == 0 else None)
+                roundtrip_case(ctx, u, case, root, None, None)
+    first = io.BytesIO()
+    np.save(first, np.arange(5, dtype=np.int64))
+    for c, extra in (("npy", {}), ("wav", dict(width=2, channels=2, n=9)), ("sph", dict(coding="pcm", channels=1, n=100, order="01"))):
+        for acc in ("offset", "second"):
+            k += 1
+            case = dict(kind="roundtrip", container=c, seed=950 + k, access=acc, **extra)
+            if c == "npy":
+                case.update(shape=[6], dtype="float32")
+            if acc == "second":
+                case["_first"] = list(first.getvalue())
+            try:
+                roundtrip_case(ctx, u, case, root, None, None)
+            except KeyError as e:    # a container this harness builds with other field names: skip rather than guess
+                ctx.count("special_roundtrip_skipped:" + c)
 
 
 # fixed cases that must always be covered (the defect found while building this check, extremes)
